@@ -1015,7 +1015,7 @@ class ComparisonReporter:
             return x
 
         def _safe_divide(n, d):
-            return n / d if d else 0
+            return n / abs(d) if d else 0
 
         if self.plain:
             color_greater = identity
